@@ -4,7 +4,7 @@
 From Coq Require Import List NArith ZArith Bool.
 From Coq Require Import Init.Byte.
 From FFS Require Import Base.Res Base.Bytes Base.Lit Abi.Types Abi.Spec Abi.ModelTypes Abi.DecModel Abi.DecCost
-  Abi.DecTotalProofs Abi.SerModel Abi.DecTotalProofs2 Abi.EntryModel Abi.DecTotalProofs3 Abi.DecSpec Abi.EncModel Abi.EncProofs3 Abi.DecTotalProofs4 Abi.DecTotalProofs5 Abi.RunC11.
+  Abi.DecTotalProofs Abi.SerModel Abi.DecTotalProofs2 Abi.EntryModel Abi.DecTotalProofs3 Abi.DecSpec Abi.EncModel Abi.EncProofs3 Abi.DecTotalProofs4 Abi.DecTotalProofs5 Abi.DecTotalProofs6 Abi.RunC11.
 Import ListNotations.
 Local Open Scope Z_scope.
 
@@ -74,6 +74,25 @@ Theorem C11_alloc_bound_calldata :
     (alloc (DecodeCallData_c id c bs) <= bound c (N.of_nat (length bs)))%N.
 Proof. exact DecodeCallData_alloc_bound. Qed.
 Print Assumptions C11_alloc_bound_calldata.
+
+(* ... and at the revert-data entry point: ABI.ParseError tries the built-in Error(string) and every
+   error definition in turn, each attempt is one decode.  [ParseError_c] is C12's entry-level model
+   observed more closely (same result, plus the decoder's units of every attempt); the units are
+   bounded by the sum, over the definitions of type error, of the bound of their inputs for this
+   data length - how many definitions there are, their types, the amount of data; no word inside
+   the data.  Monotone in the data length. *)
+Theorem C11_alloc_bound_revert :
+  forall (H : bytes -> bytes) (a : list entry) (revertData : bytes),
+    (forall e, In e a -> params_wf (e_inputs e)) -> (forall e, In e a -> params_nz (e_inputs e)) ->
+    fst (ParseError_c H a revertData) = ParseError H DecModel.DecodeABIData a revertData /\
+    (alloc (ParseError_c H a revertData) <= entries_bound (default_error :: a) (N.of_nat (length revertData)))%N /\
+    (forall n', (N.of_nat (length revertData) <= n')%N ->
+       (entries_bound (default_error :: a) (N.of_nat (length revertData)) <= entries_bound (default_error :: a) n')%N).
+Proof.
+  exact (fun H a d Hw Hnz => conj (twin_ParseError H a d) (conj (ParseError_alloc_bound H a d Hw Hnz)
+           (fun n' Hn => entries_bound_mono (default_error :: a) _ n' Hn))).
+Qed.
+Print Assumptions C11_alloc_bound_revert.
 
 (* the bound is a polynomial in the data length whose degree is the nesting of arrays; a fixed
    array contributes min(declared length, n/32 + 1) entries (the declared length itself only when
@@ -243,3 +262,22 @@ Example C11_declared_length_does_not_matter :
   tc_wf c = true /\ no_zero_size_elem c = true /\
   DecodeABIData_c c [] 0 = (Err ENotEnoughValue, 2%N) /\ bound c 0 = 6%N.
 Proof. vm_compute. auto. Qed.
+(* revert data: one custom error E(uint256,uint8[]) next to the built-in Error(string).  With a hash
+   whose first four bytes are zero both selectors are 00000000: the data is first tried as
+   Error(string) (its first word, 2^40, is refused as an offset: 3 units, an error), then as
+   E(uint256,uint8[]) (decodes, 9 units); the hypotheses of C11_alloc_bound_revert are met and the 12
+   units are below the bound for 164 bytes (184). *)
+Example C11_alloc_bound_revert_nonvacuous :
+  let H0 := fun _ : bytes => repeat x00 32 in
+  let a := [mkEntry TyError [x45] false [mkParam (Some (tc_of_ty (TUInt 256))) false;
+                                          mkParam (Some (tc_of_ty (TDynArr (TUInt 8)))) false]] in
+  let d := repeat x00 4 ++ w 1099511627776 ++ w 64 ++ w 2 ++ w 7 ++ w 8 in
+  (forall e, In e a -> params_wf (e_inputs e)) /\
+  (forall e, In e a -> params_nz (e_inputs e)) /\
+  (match fst (ParseError_c H0 a d) with Ok (Some (e, _)) => bytes_eqb (e_name e) [x45] | _ => false end,
+   alloc (ParseError_c H0 a d), entries_bound (default_error :: a) (N.of_nat (length d))) = (true, 12%N, 184%N).
+Proof.
+  split; [|split; [|vm_compute; reflexivity]].
+  - intros e [<-|[]] p tc [<-|[<-|[]]] E; injection E as <-; reflexivity.
+  - intros e [<-|[]] p tc [<-|[<-|[]]] E; injection E as <-; reflexivity.
+Qed.
